@@ -530,5 +530,64 @@ class ConnModel:
                 ("the woken waker leaves the table, every other stream's waker stays registered",
                  z3.BoolVal(left == [k for k in ids if k != target]))]
 
-    CHECKS = ["wake_stream", "terminate", "poll_recv_datagram", "poll_open_stream", "poll_accept_stream", "stream_stopped", "stream_received_reset",
+    def check_stream_event(self, p):
+        """the worker's reaction to one per-stream event of quinn-proto: the slice of ConnectionInner::run's coroutine body between
+        `state.conn.poll()` answering Some(event) and the next `state.conn.poll()`"""
+        W, I = self.world(p)
+        c = [f for k, f in self.fns.items() if k.startswith("connection::") and k.endswith("::run::{closure#0}") and "Poll<()>" in f.sig]
+        if len(c) != 1:
+            raise Unsupported("cannot locate ConnectionInner::run's coroutine body (%d)" % len(c))
+        fn = c[0]
+        poll_bb = [b for b, sts in fn.blocks.items() if re.search(r"= quinn_proto::Connection::poll\(", sts[-1])]
+        if len(poll_bb) != 1:
+            raise Unsupported("run(): expected one call of quinn_proto::Connection::poll, found %d" % len(poll_bb))
+        m = re.match(r"^\s*(_\d+) = quinn_proto::Connection::poll\(.*\[return: (bb\d+)", fn.blocks[poll_bb[0]][-1])
+        if not m:
+            raise Unsupported("run(): cannot parse the call of quinn_proto::Connection::poll")
+        ev_local, start = m.group(1), m.group(2)
+        guards = set()
+        for sts in fn.blocks.values():
+            mm = re.search(r"MutexGuard<'_, connection::ConnectionState> as DerefMut>::deref_mut\(move (_\d+)\)", sts[-1])
+            if mm:
+                for st in sts[:-1]:
+                    m2 = re.match(r"^\s*%s = &mut (_\d+);" % re.escape(mm.group(1)), st)
+                    if m2:
+                        guards.add(m2.group(1))
+        if not guards:
+            raise Unsupported("run(): cannot identify a local holding the state guard")
+        # run() takes the guard more than once (one local per lock scope); the slice starts inside one scope, so every guard local is
+        # bound to the same state
+        # state: every per-stream table holds a waker for stream 7 and one for stream 9
+        st, _placed = self.state(p, populate=False)
+        ws = {}
+        for name in ("readable", "writable", "stopped"):
+            items = []
+            for k in (7, 9):
+                ws[(name, k)] = Wk("%s#%d" % (name, k))
+                items.append(Struct({0: Cell(("stream-id", k)), 1: Cell(ws[(name, k)])}))
+            st.f[self.idx(name)].v = Bag(items)
+        guard = Struct({0: Cell(Ref(Cell(Struct({0: Cell(st)}))))})
+        # quinn_proto::StreamEvent: Opened 0, Readable 1, Writable 2, Finished 3, Stopped 4, Available 5; quinn_proto::Event::Stream = 3
+        names = ["Readable", "Writable", "Finished", "Stopped"]
+        k = p.choose(4, "stream event: Readable / Writable / Finished / Stopped, naming stream 7")
+        ev = EnumV(3, [Cell(EnumV(1 + k, [Cell(("stream-id", 7)), Cell(("error-code",))]))])
+        r = I.run_to_end(I.call_fn(fn, [None, None], p, start=start, init=dict({g: guard for g in guards}, **{ev_local: EnumV(1, [Cell(ev)])}),
+                                   stop=(poll_bb[0],)))
+        self.encoded |= I.called
+        if not (isinstance(r, tuple) and r and r[0] == "stopped-at"):
+            raise Unsupported("run(): the event arm did not come back to the event loop (%r)" % (r,))
+        # what must get going again: Readable -> reads / received_reset (readable); Writable -> writes (writable); Finished -> stopped()
+        # (stopped); Stopped (peer sent STOP_SENDING) -> stopped() AND every blocked write, which must now fail with Stopped
+        need = {"Readable": ["readable"], "Writable": ["writable"], "Finished": ["stopped"], "Stopped": ["stopped", "writable"]}[names[k]]
+        obs = []
+        for t in need:
+            obs.append(("%s event: the future of that stream parked in `%s` is woken" % (names[k], t),
+                        z3.BoolVal(sum(1 for x in W.woken if x is ws[(t, 7)]) == 1)))
+        obs.append(("no other stream's future is woken or unregistered by the event",
+                    z3.BoolVal(not any(x is ws[(t, 9)] for x in W.woken for t in ("readable", "writable", "stopped"))
+                               and all(any(deref(y.f[1].v) is ws[(t, 9)] for y in st.f[self.idx(t)].v.items)
+                                       for t in ("readable", "writable", "stopped")))))
+        return obs
+
+    CHECKS = ["wake_stream", "stream_event", "terminate", "poll_recv_datagram", "poll_open_stream", "poll_accept_stream", "stream_stopped", "stream_received_reset",
               "stream_write", "stream_read"]
